@@ -59,7 +59,12 @@ def main() -> int:
         api_pass(run, pkg)
         alias_pass(run, pkg)
         from .checks.statelib import state_pass
-        state_pass(run, pkg, everything=(pid == "C18"))
+        if pid == "C02":
+            state_pass(run, pkg, mask_forward_only=True, full_for=("utils.pbc.remove_pbc",))
+        elif pid == "C07":
+            state_pass(run, pkg, mask_forward_only=True)
+        else:
+            state_pass(run, pkg, everything=(pid == "C18"))
         if tier == "thorough" and not a.replay and not os.environ.get("VERIF_NO_SELFTEST"):
             selftest_stage(run, pid)
     except AnalysisError as e:
